@@ -19,6 +19,8 @@ INVARIANT NoDangling
 INVARIANT FinalizeOncePerCollection
 INVARIANT DropAtMostOnce
 INVARIANT UpgradeIffLive
+INVARIANT EphValueIffKeyLive
+INVARIANT NoMarkedCleared
 INVARIANT EphValueOnlyWhileKeyLive
 PROPERTY RefSpec
 CHECK_DEADLOCK FALSE
